@@ -184,6 +184,49 @@ def extra_loopback(tier, seed, bh, rh):
     return {"name": "validity-loopback", "results": val["results"]}
 
 
+# ---------------------------------------------------------------------------------------- closing window
+def _closing_case(seed):
+    out = {"seed": seed, "profile": "closing-window", "n_events": 0, "div": None, "mon": {}, "nontrivial": {"C02": 0, "C17": 0},
+           "kf": [], "stale": [], "kinds": {}, "meta": {}, "no_model": True,
+           "cfg": {"allow_list": True, "usage": False, "blur": None}}
+    try:
+        p = subprocess.run([sys.executable, os.path.join(HERE, "loopback.py"), "--closing", str(seed)],
+                           stdout=subprocess.PIPE, stderr=subprocess.PIPE, timeout=300, env=dict(os.environ))
+        last = [l for l in p.stdout.decode("utf-8", "replace").split("\n") if l.startswith("{")]
+        if p.returncode != 0 or not last:
+            out["harness_error"] = "closing-window scenario failed to run: " + p.stderr.decode("utf-8", "replace")[-1200:]
+            return out
+        r = json.loads(last[-1])
+        out["n_events"] = r["adds"] + r["closers"]
+        out["nontrivial"]["C02"] = out["nontrivial"]["C17"] = r["adds"]
+        out["kinds"] = {"closing-window:adds": r["adds"], "closing-window:closing-connections": r["closers"]}
+        if not r["ok"]:
+            d = {"meta": "closing-window", "what": r["problems"][0], "cfg": out["cfg"], "variant_cfg": out["cfg"], "seed": seed,
+                 "base_events": [], "variant_events": [], "first_difference": {"violations": r["problems"][:6], "scenario": r},
+                 "recipe": "harness/loopback.py --closing %d : real loopback WebSocket clients (the repository's test/ws_client) "
+                           "B, C, D and %d more connections all bind and open mailbox mb1 (subscription order: %s); the %d extra "
+                           "connections start the WebSocket closing handshake (sendClose) while C sends %d `add` commands"
+                           % (seed, r["closers"], r["order"], r["closers"], r["adds"])}
+            out["meta"]["C02"] = d
+            out["meta"]["C17"] = d
+        return out
+    except Exception:
+        return {"seed": seed, "profile": "closing-window", "harness_error": traceback.format_exc()}
+
+
+def extra_closing(tier, seed, bh, rh):
+    import metamorphic as MM
+    from concurrent.futures import ThreadPoolExecutor
+    n = 8 if tier == "quick" else 60
+    def compute():
+        t0 = time.time()
+        with ThreadPoolExecutor(8) as ex:
+            res = list(ex.map(_closing_case, [seed * 6151 + i for i in range(n)]))
+        return {"results": res, "seconds": time.time() - t0}
+    val = MM.cached("closing-window-%d-%d-%s-%s" % (n, seed, bh[:12], rh[:16]), compute)
+    return {"name": "closing-window", "results": val["results"]}
+
+
 if __name__ == "__main__":
     what = sys.argv[1] if len(sys.argv) > 1 else "kill"
     if what == "kill":
